@@ -159,6 +159,270 @@ pub proof fn ins_rel_fresh<C: ServerContext>(n: HttpRouterNode<C>, tm: Seq<Seq<c
     assert(forall|k: String| lit_child(Some(n), k) == lit_child::<C>(None, k));
 }
 
+
+// ---- from the structural fact to lookups: what lookup_route's walk (V10: walk_to / end_step) finds afterwards ----
+
+/// no kind conflict between the template and what is registered along its path (implied by `reg(..) is Some`)
+pub open spec fn kinds_ok<C: ServerContext>(o: Option<HttpRouterNode<C>>, tm: Seq<Seq<char>>) -> bool
+    decreases tm.len()
+{
+    if tm.len() == 0 { true } else {
+        match seg_of(tm[0]) {
+            PathSegment::Literal(l) => (edges_of(o) is None || edges_of(o)->Some_0 is Literals) && kinds_ok(lit_child(o, l), tm.skip(1)),
+            PathSegment::VarnameSegment(v) => match edges_of(o) {
+                None => kinds_ok::<C>(None, tm.skip(1)),
+                Some(HttpRouterEdges::VariableSingle(w, c)) => w == v && kinds_ok(Some(*c), tm.skip(1)),
+                _ => false,
+            },
+            PathSegment::VarnameWildcard(v) => match edges_of(o) {
+                None => true,
+                Some(HttpRouterEdges::VariableRest(w, c)) => w == v,
+                _ => false,
+            },
+        }
+    }
+}
+pub proof fn reg_fresh_kinds_ok<C: ServerContext>(tm: Seq<Seq<char>>, seen: Set<String>)
+    requires reg_fresh::<C>(tm, seen) is Some
+    ensures kinds_ok::<C>(None, tm)
+    decreases tm.len()
+{
+    if tm.len() > 0 {
+        match seg_of(tm[0]) {
+            PathSegment::Literal(l) => { reg_fresh_kinds_ok::<C>(tm.skip(1), seen); },
+            PathSegment::VarnameSegment(v) => { reg_fresh_kinds_ok::<C>(tm.skip(1), seen.insert(v)); },
+            PathSegment::VarnameWildcard(v) => {},
+        }
+    }
+}
+/// an accepted registration has no kind conflict along its path
+pub proof fn accepted_kinds_ok<C: ServerContext>(n: HttpRouterNode<C>, tm: Seq<Seq<char>>, seen: Set<String>, m: String)
+    requires reg(n, tm, seen, m) is Some
+    ensures kinds_ok(Some(n), tm) // @accepted_registrations_have_no_kind_conflict
+    decreases tm.len()
+{
+    if tm.len() > 0 {
+        let rest = tm.skip(1);
+        match seg_of(tm[0]) {
+            PathSegment::Literal(l) => match n.edges {
+                None => { reg_fresh_kinds_ok::<C>(rest, seen); },
+                Some(HttpRouterEdges::Literals(e)) => {
+                    if e@.contains_key(l) { accepted_kinds_ok(*e@[l], rest, seen, m); } else { reg_fresh_kinds_ok::<C>(rest, seen); }
+                },
+                _ => {},
+            },
+            PathSegment::VarnameSegment(v) => match n.edges {
+                None => { reg_fresh_kinds_ok::<C>(rest, seen.insert(v)); },
+                Some(HttpRouterEdges::VariableSingle(w, c)) => { accepted_kinds_ok(*c, rest, seen.insert(v), m); },
+                _ => {},
+            },
+            PathSegment::VarnameWildcard(v) => {},
+        }
+    }
+}
+
+/// C01: the request segments `p` lead down the template `tm` to its end (a literal by the identical segment, a
+/// variable by any segment, a trailing wildcard by at least one remaining segment)
+pub open spec fn wmatch(tm: Seq<Seq<char>>, p: Seq<String>) -> bool
+    decreases tm.len()
+{
+    if tm.len() == 0 { p.len() == 0 } else {
+        match seg_of(tm[0]) {
+            PathSegment::Literal(l) => p.len() > 0 && p[0] == l && wmatch(tm.skip(1), p.skip(1)),
+            PathSegment::VarnameSegment(v) => p.len() > 0 && wmatch(tm.skip(1), p.skip(1)),
+            PathSegment::VarnameWildcard(v) => p.len() > 0,
+        }
+    }
+}
+/// ... or they end exactly at the parent of the template's trailing wildcard (which then receives the empty list)
+pub open spec fn wend(tm: Seq<Seq<char>>, p: Seq<String>) -> bool
+    decreases tm.len()
+{
+    if tm.len() == 0 { false } else {
+        match seg_of(tm[0]) {
+            PathSegment::Literal(l) => p.len() > 0 && p[0] == l && wend(tm.skip(1), p.skip(1)),
+            PathSegment::VarnameSegment(v) => p.len() > 0 && wend(tm.skip(1), p.skip(1)),
+            PathSegment::VarnameWildcard(v) => p.len() == 0,
+        }
+    }
+}
+pub open spec fn walk_o<C: ServerContext>(o: Option<HttpRouterNode<C>>, p: Seq<String>, vars: Map<String, VarSpec>)
+    -> Option<(HttpRouterNode<C>, Map<String, VarSpec>)>
+{
+    match o { Some(n) => walk_to(n, p, vars), None => None }
+}
+/// the endpoints that the node reached by `p` holds for method name `k` (no node: none)
+pub open spec fn hn<C: ServerContext>(o: Option<HttpRouterNode<C>>, p: Seq<String>, vars: Map<String, VarSpec>, k: String) -> Seq<ApiEndpoint<C>> {
+    match walk_o(o, p, vars) { Some((a, _)) => handlers_for(a, k), None => Seq::empty() }
+}
+/// the endpoints that the trailing-wildcard child of the node reached by `p` holds (end_step's case)
+pub open spec fn hw<C: ServerContext>(o: Option<HttpRouterNode<C>>, p: Seq<String>, vars: Map<String, VarSpec>, k: String) -> Seq<ApiEndpoint<C>> {
+    match walk_o(o, p, vars) { Some((a, _)) => hs_of(rest_child(Some(a)), k), None => Seq::empty() }
+}
+pub open spec fn one_if<C: ServerContext>(b: bool, e: ApiEndpoint<C>) -> Seq<ApiEndpoint<C>> {
+    if b { seq![e] } else { Seq::empty() }
+}
+
+/// C01 / C02 converse, at the nodes the walk reaches: after a successful registration every request path finds
+/// exactly what it found before, plus the new endpoint iff the path leads down the new endpoint's template and the
+/// method is the new endpoint's.
+pub proof fn lookup_after_insert<C: ServerContext>(o: Option<HttpRouterNode<C>>, tm: Seq<Seq<char>>, n1: HttpRouterNode<C>,
+    e: ApiEndpoint<C>, mk: String, p: Seq<String>, vars: Map<String, VarSpec>, k: String)
+    requires
+        kinds_ok(o, tm),
+        ins_rel(o, tm, n1, e, mk),
+    ensures
+        hn(Some(n1), p, vars, k) == hn(o, p, vars, k) + one_if(k == mk && wmatch(tm, p), e), // @reached_node_holds_the_old_endpoints_plus_the_new_one_iff_matched
+        hw(Some(n1), p, vars, k) == hw(o, p, vars, k) + one_if(k == mk && wend(tm, p), e), // @wildcard_child_likewise
+    decreases tm.len(), p.len()
+{
+    assert(forall|s: Seq<ApiEndpoint<C>>| s + Seq::<ApiEndpoint<C>>::empty() =~= s);
+    assert(forall|s: Seq<ApiEndpoint<C>>| #[trigger] s.push(e) =~= s + seq![e]);
+    if tm.len() == 0 {
+        same_edges_same_walk(o, n1, p, vars, k);
+    } else {
+        let rest = tm.skip(1);
+        if p.len() == 0 {
+            match seg_of(tm[0]) {
+                PathSegment::VarnameWildcard(v) => {
+                    let c1 = n1.edges->Some_0->VariableRest_1;
+                    assert(ins_rel(rest_child(o), Seq::empty(), *c1, e, mk));
+                    assert(hs_of(rest_child(Some(n1)), k) == handlers_for(*c1, k));
+                },
+                _ => {},
+            }
+        } else {
+            let p1 = p.skip(1);
+            match seg_of(tm[0]) {
+                PathSegment::Literal(l) => {
+                    let m1 = n1.edges->Some_0->Literals_0;
+                    if p[0] == l {
+                        lookup_after_insert(lit_child(o, l), rest, *m1@[l], e, mk, p1, vars, k);
+                    } else {
+                        assert(m1@.contains_key(p[0]) == (lit_child(o, p[0]) is Some));
+                        if m1@.contains_key(p[0]) { assert(Some(*m1@[p[0]]) == lit_child(o, p[0])); }
+                    }
+                },
+                PathSegment::VarnameSegment(v) => {
+                    let c1 = n1.edges->Some_0->VariableSingle_1;
+                    lookup_after_insert(var_child(o), rest, *c1, e, mk, p1, vars.insert(v, VarSpec::Str(p[0])), k);
+                },
+                PathSegment::VarnameWildcard(v) => {
+                    let c1 = n1.edges->Some_0->VariableRest_1;
+                    assert(ins_rel(rest_child(o), Seq::empty(), *c1, e, mk));
+                },
+            }
+        }
+    }
+}
+/// with the same outgoing edges a non-empty walk reaches the same node
+pub proof fn same_edges_same_walk<C: ServerContext>(o: Option<HttpRouterNode<C>>, n1: HttpRouterNode<C>, p: Seq<String>, vars: Map<String, VarSpec>, k: String)
+    requires n1.edges == edges_of(o)
+    ensures
+        p.len() > 0 ==> walk_to(n1, p, vars) == walk_o(o, p, vars),
+        p.len() == 0 ==> walk_to(n1, p, vars) == Some((n1, vars)),
+        hw(Some(n1), p, vars, k) == hw(o, p, vars, k),
+{
+}
+
+/// C01 ("handled by exactly that endpoint and by no other") and C02's converse ("every registered endpoint is
+/// reachable"), for one accepted registration: EVERY request path and method name finds, at the node the walk
+/// reaches and at its trailing-wildcard child, what it found before -- plus the new endpoint iff the method is the
+/// new endpoint's and the path matches its template.
+pub proof fn registration_theorem<C: ServerContext>(root0: HttpRouterNode<C>, tm: Seq<Seq<char>>, root1: HttpRouterNode<C>, e: ApiEndpoint<C>, mk: String)
+    requires
+        reg(root0, tm, Set::empty(), mk) is Some,       // HttpRouter::insert returned (V14 contract, first clause)
+        ins_rel(Some(root0), tm, root1, e, mk),         // ... and this is what it did (V14 contract, third clause)
+    ensures
+        forall|p: Seq<String>, k: String| #![trigger hn(Some(root1), p, Map::empty(), k)]
+            hn(Some(root1), p, Map::empty(), k) == hn(Some(root0), p, Map::empty(), k) + one_if(k == mk && wmatch(tm, p), e), // @after_registration_every_lookup_finds_the_old_endpoints_plus_the_new_one_iff_matched
+        forall|p: Seq<String>, k: String| #![trigger hw(Some(root1), p, Map::empty(), k)]
+            hw(Some(root1), p, Map::empty(), k) == hw(Some(root0), p, Map::empty(), k) + one_if(k == mk && wend(tm, p), e), // @likewise_for_the_empty_wildcard_remainder
+{
+    accepted_kinds_ok(root0, tm, Set::empty(), mk);
+    assert forall|p: Seq<String>, k: String| #![trigger hn(Some(root1), p, Map::empty(), k)]
+        hn(Some(root1), p, Map::empty(), k) == hn(Some(root0), p, Map::empty(), k) + one_if(k == mk && wmatch(tm, p), e) by {
+        lookup_after_insert(Some(root0), tm, root1, e, mk, p, Map::empty(), k);
+    }
+    assert forall|p: Seq<String>, k: String| #![trigger hw(Some(root1), p, Map::empty(), k)]
+        hw(Some(root1), p, Map::empty(), k) == hw(Some(root0), p, Map::empty(), k) + one_if(k == mk && wend(tm, p), e) by {
+        lookup_after_insert(Some(root0), tm, root1, e, mk, p, Map::empty(), k);
+    }
+}
+
+/// a request path that matches the template (for C02: "every registered endpoint is reachable by at least one request")
+pub open spec fn witness_path(tm: Seq<Seq<char>>) -> Seq<String>
+    decreases tm.len()
+{
+    if tm.len() == 0 { Seq::empty() } else {
+        match seg_of(tm[0]) {
+            PathSegment::Literal(l) => seq![l] + witness_path(tm.skip(1)),
+            PathSegment::VarnameSegment(v) => seq![v] + witness_path(tm.skip(1)),   // any segment will do
+            PathSegment::VarnameWildcard(v) => Seq::empty(),
+        }
+    }
+}
+pub proof fn every_template_has_a_matching_path(tm: Seq<Seq<char>>)
+    ensures wmatch(tm, witness_path(tm)) || wend(tm, witness_path(tm)) // @every_registered_endpoint_is_reachable
+    decreases tm.len()
+{
+    if tm.len() > 0 {
+        every_template_has_a_matching_path(tm.skip(1));
+        let w = witness_path(tm);
+        match seg_of(tm[0]) {
+            PathSegment::Literal(l) => { assert(w.skip(1) =~= witness_path(tm.skip(1))); assert(w[0] == l); },
+            PathSegment::VarnameSegment(v) => { assert(w.skip(1) =~= witness_path(tm.skip(1))); },
+            PathSegment::VarnameWildcard(v) => {},
+        }
+    }
+}
+
+/// C01: "The outcome depends only on the set of registered endpoints and the request, never on the order of
+/// registration" -- two accepted registrations in either order leave, for every path and method name, the same
+/// endpoints (as a multiset; which one of them serves a version does not depend on their order: lemma unique_match
+/// over wf_node's pairwise-disjoint ranges)
+pub proof fn two_registrations_commute<C: ServerContext>(root0: HttpRouterNode<C>,
+    tm1: Seq<Seq<char>>, e1: ApiEndpoint<C>, m1: String, tm2: Seq<Seq<char>>, e2: ApiEndpoint<C>, m2: String,
+    ra: HttpRouterNode<C>, rab: HttpRouterNode<C>, rb: HttpRouterNode<C>, rba: HttpRouterNode<C>, p: Seq<String>, k: String)
+    requires
+        reg(root0, tm1, Set::empty(), m1) is Some, ins_rel(Some(root0), tm1, ra, e1, m1),
+        reg(ra, tm2, Set::empty(), m2) is Some, ins_rel(Some(ra), tm2, rab, e2, m2),
+        reg(root0, tm2, Set::empty(), m2) is Some, ins_rel(Some(root0), tm2, rb, e2, m2),
+        reg(rb, tm1, Set::empty(), m1) is Some, ins_rel(Some(rb), tm1, rba, e1, m1),
+    ensures
+        hn(Some(rab), p, Map::empty(), k).to_multiset() == hn(Some(rba), p, Map::empty(), k).to_multiset(), // @registration_order_does_not_matter
+        hw(Some(rab), p, Map::empty(), k).to_multiset() == hw(Some(rba), p, Map::empty(), k).to_multiset(),
+{
+    registration_theorem(root0, tm1, ra, e1, m1);
+    registration_theorem(ra, tm2, rab, e2, m2);
+    registration_theorem(root0, tm2, rb, e2, m2);
+    registration_theorem(rb, tm1, rba, e1, m1);
+    let base = hn(Some(root0), p, Map::empty(), k);
+    let x1 = one_if(k == m1 && wmatch(tm1, p), e1);
+    let x2 = one_if(k == m2 && wmatch(tm2, p), e2);
+    assert(hn(Some(ra), p, Map::empty(), k) == base + x1);
+    assert(hn(Some(rab), p, Map::empty(), k) == base + x1 + x2);
+    assert(hn(Some(rb), p, Map::empty(), k) == base + x2);
+    assert(hn(Some(rba), p, Map::empty(), k) == base + x2 + x1);
+    vstd::seq_lib::lemma_multiset_commutative(base, x1);
+    vstd::seq_lib::lemma_multiset_commutative(base + x1, x2);
+    vstd::seq_lib::lemma_multiset_commutative(base, x2);
+    vstd::seq_lib::lemma_multiset_commutative(base + x2, x1);
+    assert((base + x1 + x2).to_multiset() =~= (base + x2 + x1).to_multiset());
+    let wbase = hw(Some(root0), p, Map::empty(), k);
+    let y1 = one_if(k == m1 && wend(tm1, p), e1);
+    let y2 = one_if(k == m2 && wend(tm2, p), e2);
+    assert(hw(Some(ra), p, Map::empty(), k) == wbase + y1);
+    assert(hw(Some(rab), p, Map::empty(), k) == wbase + y1 + y2);
+    assert(hw(Some(rb), p, Map::empty(), k) == wbase + y2);
+    assert(hw(Some(rba), p, Map::empty(), k) == wbase + y2 + y1);
+    vstd::seq_lib::lemma_multiset_commutative(wbase, y1);
+    vstd::seq_lib::lemma_multiset_commutative(wbase + y1, y2);
+    vstd::seq_lib::lemma_multiset_commutative(wbase, y2);
+    vstd::seq_lib::lemma_multiset_commutative(wbase + y2, y1);
+    assert((wbase + y1 + y2).to_multiset() =~= (wbase + y2 + y1).to_multiset());
+}
+
 /// an endpoint already registered for the same path and method stands in the way of `ver`
 pub open spec fn blocks<C: ServerContext>(h: ApiEndpoint<C>, ver: ApiEndpointVersions) -> bool {
     version_conflict(h, ver) || f2(h, ver)
